@@ -38,6 +38,8 @@ enum Fault {
     Nothing,
     OwnerPanics,
     OwnerCancelled,
+    /// the child spawned last panics while the children spawned before it are still running
+    LastChildPanics,
 }
 
 #[derive(Clone, Copy, PartialEq, Debug)]
@@ -57,6 +59,11 @@ fn the_scope(kind: Kind, alive: &Arc<AtomicBool>, children: usize, yields: usize
                 let hs: Vec<_> = (0..children)
                     .map(|i| unsafe {
                         s.spawn(move || {
+                            if fault == Fault::LastChildPanics && i + 1 == children {
+                                coroutine::yield_now();
+                                CHILD_DONE.fetch_add(1, Ordering::SeqCst);
+                                std::panic::panic_any(31u32);
+                            }
                             child(a, yields);
                             10 + i as u32
                         })
@@ -65,14 +72,22 @@ fn the_scope(kind: Kind, alive: &Arc<AtomicBool>, children: usize, yields: usize
                 if fault == Fault::OwnerPanics {
                     std::panic::panic_any(31u32);
                 }
-                for h in hs {
-                    sum += h.join();
+                if fault != Fault::LastChildPanics {
+                    for h in hs {
+                        sum += h.join();
+                    }
                 }
             });
             sum
         }
         Kind::JoinMacro => {
-            if children == 1 {
+            if fault == Fault::LastChildPanics {
+                join!(child(a, yields), {
+                    coroutine::yield_now();
+                    CHILD_DONE.fetch_add(1, Ordering::SeqCst);
+                    std::panic::panic_any(31u32)
+                });
+            } else if children == 1 {
                 join!(child(a, yields));
             } else {
                 join!(child(a, yields), child(a, yields));
@@ -109,7 +124,7 @@ fn run(e: &'static Engine, workers: usize, owner_co: bool, kind: Kind, children:
     if owner_co {
         let a = alive.clone();
         let o = go!(move || {
-            if fault == Fault::OwnerPanics {
+            if matches!(fault, Fault::OwnerPanics | Fault::LastChildPanics) {
                 let r = std::panic::catch_unwind(std::panic::AssertUnwindSafe(|| the_scope(kind, &a, children, yields, fault)));
                 match r {
                     Err(p) if p.downcast_ref::<u32>() == Some(&31) => 1000,
@@ -137,7 +152,7 @@ fn run(e: &'static Engine, workers: usize, owner_co: bool, kind: Kind, children:
         let r = std::panic::catch_unwind(std::panic::AssertUnwindSafe(|| the_scope(kind, &alive, children, yields, fault)));
         match r {
             Ok(v) => out.push_str(&format!("owner={}", v)),
-            Err(p) if p.downcast_ref::<u32>() == Some(&31) && fault == Fault::OwnerPanics => out.push_str("owner=1000"),
+            Err(p) if p.downcast_ref::<u32>() == Some(&31) && matches!(fault, Fault::OwnerPanics | Fault::LastChildPanics) => out.push_str("owner=1000"),
             Err(_) => e.fail("owner_panic", "the owner thread saw an unexpected panic"),
         }
     }
@@ -152,6 +167,9 @@ fn run(e: &'static Engine, workers: usize, owner_co: bool, kind: Kind, children:
     }
     if kind != Kind::Cqueue && (done_at_exit as usize) < children && out != "owner=cancel" {
         e.fail("scope_left_early", &format!("the scope was left with {} of {} children finished", done_at_exit, children));
+    }
+    if fault == Fault::LastChildPanics && out != "owner=1000" {
+        e.fail("child_panic_not_propagated", &format!("the panic of a scoped child did not reach the owner: {}", out));
     }
     if kind == Kind::Scope && fault == Fault::Nothing {
         let want: u32 = (0..children).map(|i| 10 + i as u32).sum();
@@ -206,6 +224,9 @@ pub fn build(quick: bool) -> Vec<Scenario> {
             (true, Kind::Cqueue, 2, 1, Fault::Nothing),
             (false, Kind::Cqueue, 2, 1, Fault::Nothing),
             (true, Kind::Cqueue, 1, 2, Fault::OwnerPanics),
+            (true, Kind::Scope, 2, 3, Fault::LastChildPanics),
+            (false, Kind::Scope, 3, 2, Fault::LastChildPanics),
+            (true, Kind::JoinMacro, 2, 3, Fault::LastChildPanics),
             (true, Kind::Scope, 1, 3, Fault::OwnerCancelled),
             (true, Kind::JoinMacro, 1, 3, Fault::OwnerCancelled),
             (true, Kind::Cqueue, 1, 3, Fault::OwnerCancelled),
